@@ -76,6 +76,11 @@ let () =
         let ofields = List.map kv (String.split_on_char ' ' obs) in
         let oget k = try List.assoc k ofields with Not_found -> "?" in
         let propfail = ref None and diff = ref None in
+        (* comparisons / property checks that could not be made on this case although nothing disagrees: never
+           silent, they are printed behind the OK verdict (`OK skipped=a,b`) and counted by the input histogram
+           of props/c08.py where they follow from the input (matrix outside the theorem, empty motif) *)
+        let skips = ref [] in
+        let skip w = if not (List.mem w !skips) then skips := w :: !skips in
         let set_pf v = if !propfail = None then propfail := Some v in
         let set_df v = if !diff = None then diff := Some v in
         (try
@@ -89,7 +94,7 @@ let () =
           let k5 = nat_of_int kk in
           let in_theorem = List.for_all (fun r -> List.for_all f_is_finite (List.filteri (fun j _ -> j < kk - 1) r)) mat in
           (match f_to_discrete k5 mat, oget "disc" with
-           | Panic _, "P" -> ()
+           | Panic _, "P" -> skip "everything:to_discrete-panics(NaN-among-the-non-wildcard-cells,as-modelled)"
            | Panic _, _ -> set_df "model-panics-implementation-does-not"
            | Ok _, "P" -> set_df "to_discrete-panicked"
            | Ok d, _ ->
@@ -167,21 +172,36 @@ let () =
                      set_pf "backend-mismatch neon-model (kernel translated from neon.rs) differs from generic, 16 columns"
                  end
                end;
-               (* all arms agree (an arm may panic only where the model says so: empty motif on AVX2) *)
+               (* all arms agree (an arm may panic only where the model says so: empty motif on AVX2).  Without a
+                  reference from the generic pipeline there is nothing to compare with: that is a DIFF, not a silent OK *)
                let ref_full = oget "gen" and ref_part = oget "sG" in
+               let is_matrix v = (match parse_scores v with Some _ -> true | None -> false) in
+               if not (is_matrix ref_full) then
+                 set_df (Printf.sprintf "property-not-checked:no-generic-reference gen=%s" (String.sub ref_full 0 (min 12 (String.length ref_full))));
                List.iter (fun key ->
                    let v = oget key in
-                   if v <> "?" && v <> "U" && v <> "P" && ref_full <> "P" && v <> ref_full then
+                   if v = "U" then skip (key ^ ":pipeline-unavailable-on-this-host")
+                   else if v = "?" then (if not protein then set_df (Printf.sprintf "property-not-checked:%s-not-observed" key))
+                   else if is_matrix v && is_matrix ref_full && v <> ref_full then
                      set_pf (Printf.sprintf "backend-mismatch %s differs from generic" key)
-                   else if v = "P" && ref_full <> "P" && m > 0 then
-                     set_pf (Printf.sprintf "backend-mismatch %s panicked, generic did not" key))
-                 ["avx"; "dG"; "dS"; "dA"; "sse"];
+                   else if v = "P" && is_matrix ref_full && m > 0 then
+                     set_pf (Printf.sprintf "backend-mismatch %s panicked, generic did not" key)
+                   else if v = "P" && m = 0 then skip (key ^ ":panics-on-the-empty-motif(as-modelled)")
+                   else if not (is_matrix v) then set_df (Printf.sprintf "property-not-checked:%s=%s" key (String.sub v 0 (min 12 (String.length v)))))
+                 (if protein then ["sse"] else ["avx"; "dG"; "dS"; "dA"; "sse"]);
                (let v = oget "s16" and r = oget "g16" in
-                if v <> "?" && v <> "U" && v <> "P" && r <> "P" && v <> r then
-                  set_pf "backend-mismatch s16 differs from generic (16 columns)");
-               (let v = oget "sA" in
-                if v <> "?" && v <> "U" && v <> "P" && ref_part <> "P" && v <> ref_part then
-                  set_pf "backend-mismatch sA differs from generic");
+                if v = "U" then skip "s16:pipeline-unavailable-on-this-host"
+                else if is_matrix v && is_matrix r then (if v <> r then set_pf "backend-mismatch s16 differs from generic (16 columns)")
+                else set_df (Printf.sprintf "property-not-checked:16-column-layout g16=%s s16=%s"
+                               (String.sub r 0 (min 8 (String.length r))) (String.sub v 0 (min 8 (String.length v)))));
+               if not protein then
+                 (let v = oget "sA" in
+                  if v = "U" then skip "sA:pipeline-unavailable-on-this-host"
+                  else if is_matrix v && is_matrix ref_part then (if v <> ref_part then set_pf "backend-mismatch sA differs from generic")
+                  else if v = "P" && ref_part = "P" then skip "sub-range:both-arms-panic(as-modelled)"
+                  else if v = "P" && m = 0 then skip "sA:panics-on-the-empty-motif(as-modelled)"
+                  else if v = "P" || ref_part = "P" then ()   (* one arm panics: compared with the model above (cmpk sG / sA) *)
+                  else set_df "property-not-checked:sub-range-not-observed");
                (* histories on ONE reused StripedScores<u8, U32> buffer: every step through the extracted history
                   model (DiscHistory.hstep: resize of the caller's buffer + the kernel's writes into it), compared
                   step by step (rows, max_index, checksum) and in full at the end *)
@@ -252,22 +272,29 @@ let () =
                         let impl = oget hk in
                         (* a pipeline that does not exist on this host ends the observed history with `U` *)
                         let unavailable = String.length impl > 0 && impl.[String.length impl - 1] = 'U' in
+                        if unavailable then skip (hk ^ ":pipeline-unavailable-on-this-host");
                         if not unavailable then begin
                           cmp hk (String.concat ";" (List.rev !obs));
                           cmp hfk (if !cut then "P" else match !buf with Some b -> show_scores (Ok b) | None -> "P");
                           (* the final buffer of a complete history is the score of the main motif on the main
                              sequence: one more source of byte scores for the property check below *)
                           if not !cut then hist_keys := hfk :: !hist_keys
+                          else skip (hk ^ ":history-ends-with-a-panic(as-modelled)")
                         end) (String.split_on_char '|' hs)
-                | Some _ -> ());
+                | Some _ -> set_df "property-not-checked:histories-are-not-modelled-for-protein-cases");
                (* the property on the implementation's numbers *)
+               (* byte score of position i in an observed score matrix: the extracted StripedScores Index<usize>
+                  (DiscModel.sc_index) on the observed cells *)
                let u8s_of key =
                  if key = "ds" then (try Some (List.map int_of_string (split ',' (oget "ds"))) with _ -> None)
                  else
                    let cols = if key = "g16" || key = "s16" then 16 else 32 in
                    match parse_scores (oget key) with
-                   | Some (rows, _, cells) when rows > 0 ->
-                       (try Some (List.map (fun i -> cells.((i mod rows) * cols + i / rows)) positions) with _ -> None)
+                   | Some (rows, mx, cells) when rows > 0 && Array.length cells = rows * cols ->
+                       let sc = { sc_rows = List.init rows (fun r -> List.init cols (fun c -> z_of_int cells.(r * cols + c)));
+                                  sc_max = nat_of_int mx } in
+                       (try Some (List.map (fun i -> match z_sc_index sc (nat_of_int i) with Ok b -> int_of_z b | _ -> raise Exit) positions)
+                        with _ -> None)
                    | _ -> None in
                (* byte sources; a source whose byte scores equal those of an earlier source is checked once *)
                let sources =
@@ -278,6 +305,20 @@ let () =
                      | Some u -> if List.mem u !seen then false else (seen := u :: !seen; true))
                    (["ds"; "gen"; "avx"; "dG"; "dS"; "dA"; "sse"; "g16"; "s16"] @ List.rev !hist_keys) in
                let tag () = if well_conditioned mat ifac then "" else "ill-conditioned " in
+               (* every expected source of byte scores must be there when there are positions to check *)
+               if npos > 0 then
+                 List.iter (fun key ->
+                     let v = oget key in
+                     if v <> "U" && u8s_of key = None then begin
+                       (* the empty motif: L + 1 positions, but the score matrices have no cell for position L when
+                          L is a multiple of the row count (and none at all for the empty sequence); AVX2 arms panic *)
+                       if m = 0 then skip (key ^ ":empty-motif(no-cell-for-every-position)")
+                       else set_df (Printf.sprintf "property-not-checked:%s=%s" key (String.sub v 0 (min 12 (String.length v))))
+                     end)
+                   (if protein then ["ds"; "gen"; "sse"; "g16"; "s16"] else ["ds"; "gen"; "avx"; "dG"; "dS"; "dA"; "sse"; "g16"; "s16"]);
+               if not in_theorem then skip "property:matrix-outside-the-theorem(non-finite-non-wildcard-cell)"
+               else if List.length ireals <> npos then
+                 set_df (Printf.sprintf "property-not-checked:real-scores rs=%s" (let v = oget "rs" in String.sub v 0 (min 16 (String.length v))));
                if in_theorem && List.length ireals = npos then begin
                  (* (a) scale recomputed by the model from the observed factor / offset *)
                  let check key =
@@ -310,20 +351,21 @@ let () =
                                            (List.nth u i) (List.nth iss i) (bits_of (List.nth ireals i)))
                              | Some (FailThr (i, j)) ->
                                  let i = int_of_nat i and j = int_of_nat j in
-                                 (* factor -0.0 (sign bit set, to_discrete on zero matrices of mixed signs): scale is
-                                    not monotone there, C08_threshold_transfer_f32_refuted_negzero / F14b *)
+                                 (* factor -0.0 (sign bit set): scale is not monotone there.  to_discrete cannot produce it any
+                                    more (F14b repaired in /repo fd98893, C08_factor_sign_clear); the tag stays for regressions *)
                                  let ntag = if (not (factor_sign_clear ifac)) && bits_of ifac = 0x80000000 then "negative-zero-factor " else "" in
                                  set_pf (Printf.sprintf "%sthreshold-transfer-lost pos=%d via=%s u8=%d real=%d >= thr=%d but impl-scale(thr)=%d" ntag i key
                                            (List.nth u i) (bits_of (List.nth ireals i)) (bits_of (List.nth thr j)) (List.nth isc j)))
                         | _ -> () in
                       List.iter check_impl sources
-                  | _ -> ())
+                  | _ -> set_df "property-not-checked:implementation-images ss / sc missing or of the wrong length")
                end)
         with e -> set_df ("driver-exception " ^ Printexc.to_string e));
         (match !propfail, !diff with
          | Some p, _ -> print_endline (id ^ " PROPFAIL " ^ p)
          | None, Some d -> print_endline (id ^ " DIFF " ^ d)
-         | None, None -> print_endline (id ^ " OK"))
+         | None, None ->
+             print_endline (id ^ " OK" ^ (if !skips = [] then "" else " skipped=" ^ String.concat "," (List.rev !skips))))
       end
     done
   with End_of_file -> ()
